@@ -347,7 +347,8 @@ fn panic_msg(p: Box<dyn std::any::Any + Send>) -> String {
 }
 
 fn ms(v: Option<u64>) -> Option<Duration> {
-    v.map(Duration::from_millis)
+    // u64::MAX stands for "practically no timeout": the largest Duration there is
+    v.map(|v| if v == u64::MAX { Duration::MAX } else { Duration::from_millis(v) })
 }
 
 /// get-like operations: returns the Object if one was obtained
@@ -674,7 +675,7 @@ fn oracle_on_return(w: &mut UWorld, opi: usize) -> Option<Violation> {
                     if res == URes::Err(UErr::Timeout) {
                         let start = op.wait_start_ms.unwrap_or(op.return_ms.unwrap_or(0));
                         let now = op.return_ms.unwrap_or(0);
-                        if now < start + tms {
+                        if now < start.saturating_add(tms) {
                             return v("timeout_not_early", format!("Timeout {} ms after the call started waiting, timeout is {} ms", now - start, tms));
                         }
                         w.probe("um_timeout_fired");
@@ -699,6 +700,15 @@ fn oracle_on_return(w: &mut UWorld, opi: usize) -> Option<Violation> {
                     }
                 }
             }
+        }
+    }
+    // ---- add() has no timeout: it waits for a slot and fails only on a closed pool ---------
+    if let (UOp::Add { .. }, URes::Refused(id, e)) = (&op.op, &res) {
+        if *e != UErr::Closed || !w.close_invoked {
+            return v(
+                "add_waits_for_slot",
+                format!("add() gave back #{id} with {:?} on a pool that {}", e, if w.close_invoked { "is being closed" } else { "was never closed" }),
+            );
         }
     }
     // ---- close finality (C12) -----------------------------------------------------------
@@ -923,7 +933,7 @@ pub fn quiescent(w: &mut UWorld, info: &SimInfo) -> Option<Violation> {
                     _ => None,
                 };
                 if let (Some(t), Some(st)) = (t, op.wait_start_ms) {
-                    if t > 0 && info.now_ms > st + t {
+                    if t > 0 && info.now_ms > st.saturating_add(t) {
                         return Some(engine::violation("C10", "timeout_fires", format!("no task is runnable at t={} ms but a call waiting since {} ms with a {} ms timeout is still waiting", info.now_ms, st, t)));
                     }
                 }
@@ -1291,7 +1301,12 @@ fn epilogue(sc: &UScenario) -> Option<Violation> {
 // ---------------------------------------------------------------------------
 
 fn small_ms(rng: &mut Rng) -> u64 {
-    *rng.pick(&[1u64, 2, 5, 5, 10, 10, 20])
+    // boundary values: whole seconds and "practically no timeout"
+    match rng.below(100) {
+        0..=7 => *rng.pick(&[1000u64, 2000]),
+        8..=9 => u64::MAX,
+        _ => *rng.pick(&[1u64, 2, 5, 5, 10, 10, 20]),
+    }
 }
 
 pub fn gen_unmanaged(rng: &mut Rng, profile: &str, thorough: bool) -> UScenario {
@@ -1302,7 +1317,7 @@ pub fn gen_unmanaged(rng: &mut Rng, profile: &str, thorough: bool) -> UScenario 
         4..=7 => {
             let runtime = if timeouts { rng.below(100) < 70 } else { rng.coin() };
             let timeout = if timeouts && rng.below(100) < 70 {
-                Some(*rng.pick(&[0u64, 5, 10, 20]))
+                Some(if rng.below(100) < 8 { *rng.pick(&[1000u64, u64::MAX]) } else { *rng.pick(&[0u64, 5, 10, 20]) })
             } else if !timeouts && runtime && rng.below(100) < 30 {
                 Some(small_ms(rng))
             } else {
